@@ -238,3 +238,157 @@ Definition chk_filter (c : rawcase) : float :=
   let dval := fmax (devs3 (y_ft o) (lnth ou 1) s1) (fmax (devs3 (y_c o) (lnth ou 3) s2) (devs3 (g_o o) (lnth ou 5) s3)) in
   let derr := fmax (devs3 (dy_ft o) (lnth ou 6) e1) (fmax (devs3 (dy_c o) (lnth ou 7) e2) (devs3 (dg_o o) (lnth ou 8) e3)) in
   sel_channel (znth z 6) dgrid dval derr.
+
+(* ================= StoG: ingestion, merge, workflow steps (C10, C11, C12, C17) ================= *)
+From PyStoG Require Import StogM.
+
+Definition fopt (has : Z) (v : float) : option float := if Z.eqb has 0 then None else Some v.
+Definition zb (z : Z) : bool := negb (Z.eqb z 0).
+
+(* one add_dataset step from the implementation's own pre-state
+   fl = [x; y; dy; pre_rx; pre_ry; pre_re; pre_sx; pre_sy; pre_se]
+   sc = [d_qmin; d_qmax; yscale; yoffset; xoffset; gqmin; gqmax; rho; bcoh; btot; pre_xmin; pre_xmax]
+   zs = [has_dy; has_qmin; has_qmax; has_Y; has_scale; has_offset; has_X; has_xoffset; kind; has_gqmin; has_gqmax]
+   out = [rx; ry; re; sx; sy; se; [xmin; xmax]] *)
+Definition mk_config (gqmin gqmax : option float) (rho bcoh btot : float) (dr : list float)
+    (lowq : bool) (cutoff : float) (fn : gfun) (m : mopts) : config :=
+  {| c_qmin := gqmin; c_qmax := gqmax; c_rho := rho; c_bcoh := bcoh; c_btot := btot; c_dr := dr;
+     c_lowq := lowq; c_lorch := false; c_cutoff := cutoff; c_fn := fn; c_merge := m |}.
+Definition no_mopts : @mopts float := {| m_Y := None; m_F := None |}.
+
+Definition dev3 (a : list float * list float * list float) (l : list (list float)) (i : nat) : float :=
+  let '(x, y, e) := a in
+  fmax (devs dev_exact x (lnth l i)) (fmax (devs dev_pt y (lnth l (i + 1))) (devs dev_pt e (lnth l (i + 2)))).
+
+Definition chk_add (c : rawcase) : float :=
+  let z := zs c in let s := sc c in let f := fl c in
+  let cfg := mk_config (fopt (znth z 9) (fnth s 5)) (fopt (znth z 10) (fnth s 6)) (fnth s 7) (fnth s 8) (fnth s 9)
+               [] false 0%float gg no_mopts in
+  let d := {| d_x := lnth f 0; d_y := lnth f 1; d_dy := opt_dy (znth z 0) (lnth f 2);
+              d_qmin := fopt (znth z 1) (fnth s 0); d_qmax := fopt (znth z 2) (fnth s 1);
+              d_Y := if zb (znth z 3) then Some {| o_scale := fopt (znth z 4) (fnth s 2); o_offset := fopt (znth z 5) (fnth s 3) |} else None;
+              d_X := if zb (znth z 6) then Some (fopt (znth z 7) (fnth s 4)) else None;
+              d_kind := rfun_of (znth z 8) |} in
+  let pre := {| s_xmin := fnth s 10; s_xmax := fnth s 11;
+                s_recip := (lnth f 3, lnth f 4, lnth f 5); s_sq := (lnth f 6, lnth f 7, lnth f 8);
+                t_sq := None; t_qsq := None; t_ft := None; t_sqft := None; t_fq := None;
+                t_gr := None; t_grft := None; t_grl := None; t_gk := None |} in
+  let post := add_dataset cfg pre d in
+  fmax (dev3 (s_recip post) (out c) 0)
+       (fmax (dev3 (s_sq post) (out c) 3)
+             (devs dev_exact [s_xmin post; s_xmax post] (lnth (out c) 6))).
+
+(* merge_data from the implementation's own sq_individuals
+   fl = [sx; sy; se]  sc = [Yscale; Yoffset; Fscale; Foffset; rho; bcoh; btot]
+   zs = [has_Y; has_Yscale; has_Yoffset; has_F; has_FY; has_Fscale; has_Foffset]
+   out = [sorted sx; sy; se; q; sq; q2; fofq] *)
+Definition chk_merge (c : rawcase) : float :=
+  let z := zs c in let s := sc c in let f := fl c in
+  let m := {| m_Y := if zb (znth z 0) then Some {| o_scale := fopt (znth z 1) (fnth s 0); o_offset := fopt (znth z 2) (fnth s 1) |} else None;
+              m_F := if zb (znth z 3) then Some (if zb (znth z 4) then Some {| o_scale := fopt (znth z 5) (fnth s 2); o_offset := fopt (znth z 6) (fnth s 3) |} else None) else None |} in
+  let cfg := mk_config None None (fnth s 4) (fnth s 5) (fnth s 6) [] false 0%float gg m in
+  let pre := {| s_xmin := 0%float; s_xmax := 0%float; s_recip := ([], [], []); s_sq := (lnth f 0, lnth f 1, lnth f 2);
+                t_sq := None; t_qsq := None; t_ft := None; t_sqft := None; t_fq := None;
+                t_gr := None; t_grft := None; t_grl := None; t_gk := None |} in
+  let post := merge_data cfg pre in
+  let '(q1, s1) := curve_or_empty (t_sq post) in
+  let '(q2, f2) := curve_or_empty (t_qsq post) in
+  fmax (dev3 (s_sq post) (out c) 0)
+       (fmax (fmax (devs dev_exact q1 (lnth (out c) 3)) (devs dev_pt s1 (lnth (out c) 4)))
+             (fmax (devs dev_exact q2 (lnth (out c) 5)) (devs dev_pt f2 (lnth (out c) 6)))).
+
+(* ---- scales of named transforms / filter variants, as functions ---- *)
+Definition q2r_scales (X : rfun) (Y : gfun) (xin yin xout : list float) (dy : option (list float)) (k : kw float)
+  : list float * list float :=
+  let '(py, pe) := rconv X rF xin yin dy k in
+  let '(_, T, E) := fourier_transform xin py xout None None (Some pe) k in
+  let '(sv, se) := ft_scales xin py xout None None (Some pe) k in
+  let T := vscale_r two_over_pi T in
+  let T2 := vadd T (vscale_r two_over_pi sv) in
+  let '(v1, _) := gconv gG Y xout T (Some (vscale_r two_over_pi se)) k in
+  let '(v2, e2) := gconv gG Y xout T2 (Some (vscale_r two_over_pi se)) k in
+  (map2 (fun a b => fabs (a - b)%float) v2 v1, e2).
+
+Definition filter_scales (Rf : gfun) (Qf : rfun) (r gr q y : list float) (cutoff : float)
+    (dgr dy : option (list float)) (k : kw float) : list float * list float * list float :=
+  let '(g0, dg0) := gconv Rf gg r gr dgr k in
+  let '(f0, df0) := rconv Qf rF q y dy k in
+  let oc := g_using_F r g0 q f0 cutoff (Some dg0) (Some df0) k in
+  let '(rt, gt, dgt) := apply_cropping r g0 0%float cutoff (Some dg0) in
+  let '(Gtm, dGtm) := g_to_G rt (vadd_s 1%float gt) (Some dgt) k in
+  let lowx := if omitted k then maxabs (map (low_x_scale (lorch k) (vmin rt) (vmax rt) (hd 0%float Gtm)) q) else 0%float in
+  let sF := (atrapz rt Gtm + maxabs f0 + lowx)%float in
+  let lowx2 := if omitted k then maxabs (map (low_x_scale (lorch k) (vmin (q_c oc)) (vmax (q_c oc)) (hd 0%float (y_c oc))) (r_o oc)) else 0%float in
+  let sG := (two_over_pi * (atrapz (q_c oc) (y_c oc) + sF * span (q_c oc) + lowx2))%float in
+  let sc_recip (qq yy : list float) :=
+    let '(v1, _) := rconv rF Qf qq yy None k in
+    let '(v2, _) := rconv rF Qf qq (vadd_s sF yy) None k in
+    map2 (fun a b => fabs (a - b)%float) v2 v1 in
+  let '(G1, _) := g_to_G (r_o oc) (g_o oc) None k in
+  let '(w1, _) := gconv gG Rf (r_o oc) G1 None k in
+  let '(w2, _) := gconv gG Rf (r_o oc) (vadd_s sG G1) None k in
+  (sc_recip (q_ft oc) (y_ft oc), sc_recip (q_c oc) (y_c oc), map2 (fun a b => fabs (a - b)%float) w2 w1).
+
+(* ---- one workflow step from the implementation's own pre-state (C12)
+   sc = [rho; bcoh; btot; cutoff]
+   zs = [fn; lowq; opcode; pre-presence x9; post-presence x9]   opcode 0 Transform 1 Filter 2 Lorch 3 KeenFQ 4 KeenGR
+   fl = [dr; a1; a2; a3] ++ pre curves (9 x [x; y]) ++ post curves (9 x [x; y]) ++ returned arrays (<= 4)
+   titles in the order t_sq t_qsq t_ft t_sqft t_fq t_gr t_grft t_grl t_gk *)
+Definition get_curve (present : Z) (f : list (list float)) (i : nat) : option (list float * list float) :=
+  if zb present then Some (lnth f i, lnth f (i + 1)) else None.
+Definition titles (s : @state float) : list (option (list float * list float)) :=
+  [t_sq s; t_qsq s; t_ft s; t_sqft s; t_fq s; t_gr s; t_grft s; t_grl s; t_gk s].
+
+Definition dev_curve (sc : option (list float)) (m i : option (list float * list float)) : float :=
+  match m, i with
+  | None, None => 0%float
+  | Some (mx, my), Some (ix, iy) =>
+      fmax (devs dev_exact mx ix)
+           (match sc with Some s => devs3 my iy s | None => devs dev_pt my iy end)
+  | _, _ => PrimFloat.infinity
+  end.
+
+Definition chk_step (c : rawcase) : float :=
+  let z := zs c in let s := sc c in let f := fl c in
+  let fn := gfun_of (znth z 0) in
+  let cfg := mk_config None None (fnth s 0) (fnth s 1) (fnth s 2) (lnth f 0) (zb (znth z 1)) (fnth s 3) fn no_mopts in
+  let pre_c := map (fun j => get_curve (znth z (3 + j)) f (4 + 2 * j)) (seq 0 9) in
+  let post_c := map (fun j => get_curve (znth z (12 + j)) f (22 + 2 * j)) (seq 0 9) in
+  let pc j := nth j pre_c None in
+  let pre := {| s_xmin := 0%float; s_xmax := 0%float; s_recip := ([], [], []); s_sq := ([], [], []);
+                t_sq := pc 0%nat; t_qsq := pc 1%nat; t_ft := pc 2%nat; t_sqft := pc 3%nat; t_fq := pc 4%nat;
+                t_gr := pc 5%nat; t_grft := pc 6%nat; t_grl := pc 7%nat; t_gk := pc 8%nat |} in
+  let a1 := lnth f 1 in let a2 := lnth f 2 in let a3 := lnth f 3 in
+  let ret j := lnth f (40 + j) in
+  let '(qm, sqm) := curve_or_empty (t_sq pre) in
+  let tr_sc := fst (q2r_scales rS fn qm sqm (c_dr cfg) None (transform_kw cfg)) in
+  let none9 : list (option (list float)) := map (fun _ => None) (seq 0 9) in
+  let set (l : list (option (list float))) (j : nat) (v : list float) :=
+    map (fun i => if Nat.eqb i j then Some v else nth i l None) (seq 0 9) in
+  let '(post, scales, dret) :=
+    match znth z 2 with
+    | 0%Z => let '(st, (r, g)) := transform_merged cfg pre in
+             (st, set none9 5%nat tr_sc, fmax (devs dev_exact r (ret 0%nat)) (devs3 g (ret 1%nat) tr_sc))
+    | 1%Z => let '(st, o) := fourier_filter cfg pre in
+             let pre' := match t_gr pre with Some _ => pre | None => fst (transform_merged cfg pre) end in
+             let '(r, gr) := curve_or_empty (t_gr pre') in
+             let '(s1, s2, s3) := filter_scales fn rS r gr qm sqm (c_cutoff cfg) None None (filter_kw cfg) in
+             let sc := set (set (set none9 2%nat s1) 3%nat s2) 6%nat s3 in
+             let sc := match t_gr pre with Some _ => sc | None => set sc 5%nat tr_sc end in
+             (st, sc, fmax (fmax (devs dev_exact (fo_q o) (ret 0%nat)) (devs3 (fo_sq o) (ret 1%nat) s2))
+                           (fmax (devs dev_exact (fo_r o) (ret 2%nat)) (devs3 (fo_gr o) (ret 3%nat) s3)))
+    | 2%Z => let '(st, (r, g)) := apply_lorch cfg pre a1 a2 a3 in
+             let sl := fst (q2r_scales rS fn a1 a2 a3 None (lorch_kw cfg)) in
+             (st, set none9 7%nat sl, fmax (devs dev_exact r (ret 0%nat)) (devs3 g (ret 1%nat) sl))
+    | 3%Z => (add_keen_fq cfg pre a1 a2, none9, 0%float)
+    | _ => (add_keen_gr cfg pre a1 a2, none9, 0%float)
+    end in
+  fold_left fmax
+    (map (fun j => dev_curve (nth j scales None) (nth j (titles post) None) (nth j post_c None)) (seq 0 9))
+    dret.
+
+(* ================= rebin (C20): fl = [x; y] sc = [xmin; xdiv; xmax] out = [xout; yout] ================= *)
+From PyStoG Require Import RebinM.
+Definition chk_rebin (c : rawcase) : float :=
+  let '(xo, yo) := rebin (lnth (fl c) 0) (lnth (fl c) 1) (fnth (sc c) 0) (fnth (sc c) 1) (fnth (sc c) 2) in
+  fmax (devs dev_exact xo (lnth (out c) 0)) (devs dev_pt yo (lnth (out c) 1)).
